@@ -6,7 +6,7 @@
 //! built exactly as `process_operation` (p2panda/src/streams/stream.rs) builds them: log id from
 //! the topic the operation arrived on, prune flag from the not yet verified header extensions.
 //!
-//! Workload: a victim author V with populated logs, an attacker A and a bystander B with logs of
+//! Workload: a victim author V with populated logs (inserted the way the forge does), an attacker A and a bystander B with logs of
 //! their own (same log ids: a log id is derived from the topic), then a sequence of operations:
 //! honest appends and prunes, re-deliveries, and invalid ones — forged signature claiming V (or B)
 //! as author, fields tampered after signing, wrong backlink / sequence number — flagged and
@@ -24,8 +24,10 @@ use p2panda::operation::{LogId, Operation};
 use p2panda::processor::ProcessorError;
 use p2panda_core::traits::Digest;
 use p2panda_core::{Hash, SeqNum, SigningKey, Topic, VerifyingKey};
-use p2panda_store::SqliteStore;
 use p2panda_store::logs::LogStore;
+use p2panda_store::operations::OperationStore;
+use p2panda_store::topics::TopicStore;
+use p2panda_store::{SqliteStore, Transaction};
 use simcore::{Budget, Property, Tier, ctx, ev, libc_seams, stepexec, violation};
 use simworld::logworld::{key_bytes, signing_key};
 use simworld::populate::sqlite_memory;
@@ -253,8 +255,8 @@ impl Property for C04Prop {
     }
     fn budget(&self, tier: Tier) -> Budget {
         match tier {
-            Tier::Quick => Budget { runs: 8_000, wall_cap_s: 40 },
-            Tier::Thorough => Budget { runs: 90_000, wall_cap_s: 360 },
+            Tier::Quick => Budget { runs: 6_000, wall_cap_s: 35 },
+            Tier::Thorough => Budget { runs: 90_000, wall_cap_s: 330 },
         }
     }
     fn modes(&self) -> u32 {
@@ -267,7 +269,7 @@ impl Property for C04Prop {
         }
     }
     fn rule(&self) -> &'static str {
-        "one run = a fresh in-memory SQLite store and the real Pipeline (own thread); three authors (victim V, attacker A, bystander B) x 2-3 topics (= log ids) populated through the pipeline with 0-8 honest operations per log, then 3-10 operations drawn from: honest append, honest prune (flagged, may skip 0-5 seqs), and in the faulty mode forged signature claiming V/B (flagged 3/4; seq height+1 / 1000 / = height / below), tampered copy of an honest operation (prune flag, seq_num, body, signature), well-signed but not extending its log (flagged at or below height; unflagged gap / wrong backlink), re-delivery (prefers flagged); all logs are dumped through get_log_entries after every operation and the deleted rows compared with the property; non-trivial = every run; distinct = distinct trace fingerprint (world, operations, verdicts, deletions)"
+        "one run = a fresh in-memory SQLite store and the real Pipeline (own thread); three authors (victim V, attacker A, bystander B) x 2-3 topics (= log ids) populated in one transaction (as the forge does) with 0-8 honest operations per log (1/6 of them prune-flagged and not yet passed through the pipeline), then 3-10 operations drawn from: honest append, honest prune (flagged, may skip 0-5 seqs), and in the faulty mode forged signature claiming V/B (flagged 3/4; seq height+1 / 1000 / = height / below), tampered copy of an honest operation (prune flag, seq_num, body, signature), well-signed but not extending its log (flagged at or below height; unflagged gap / wrong backlink), re-delivery (prefers flagged); all logs are dumped through get_log_entries after every operation and the deleted rows compared with the property; non-trivial = every run; distinct = distinct trace fingerprint (world, operations, verdicts, deletions)"
     }
     fn components_real(&self) -> Vec<&'static str> {
         vec!["p2panda::processor Pipeline::new (own OS thread, real Ingest and LogPrune layers) and Pipeline::process", "Event::new (ingest and prune arguments derived from the unverified header)", "TaskTracker / Task (real threads)", "p2panda_stream ingest_operation, validate_operation, validate_prunable_backlink", "p2panda_stream LogPrune processor", "SqliteStore (in-memory): insert_operation, prune_entries, get_log_entries", "p2panda::operation::Extensions / LogId::from_topic"]
@@ -335,7 +337,8 @@ async fn run_on(store: &SqliteStore, byzantine: bool) {
     };
     let pipeline: NodePipeline = NodePipeline::new(store.clone(), NodeTasks::new());
 
-    // ---- population: honest operations through the pipeline, checked like every other one ------
+    // ---- population: what each author's own node holds after publishing (the forge inserts its
+    // operations directly and associates the log with the topic), in one transaction -------------
     let mut script: Vec<(usize, usize, usize)> = vec![];
     for a in 0..3 {
         for t in 0..n_topics {
@@ -344,6 +347,35 @@ async fn run_on(store: &SqliteStore, byzantine: bool) {
         }
     }
     ev!("world: authors V (victim) A (attacker) B (bystander), {n_topics} topics; initial log lengths {}", script.iter().map(|(a, t, n)| format!("{}:t{}={}", NAMES[*a], t, n)).collect::<Vec<_>>().join(" "));
+    {
+        let permit = match store.begin().await {
+            Ok(p) => p,
+            Err(e) => {
+                violation("store-error", "begin", e.to_string());
+                return;
+            }
+        };
+        for (a, t, n) in script {
+            for _ in 0..n {
+                // Some of them carry the prune flag and have not been through the pipeline yet
+                // (the state between the forge's insert and the publisher's own pipeline pass);
+                // their re-delivery below is that pass.
+                let flagged = w.tip(a, t).is_some() && ctx::chance("populate.flagged", 1, 6);
+                let d = w.honest(a, t, flagged, 0);
+                let log_id = LogId::from_topic(w.topics[t]);
+                let r1 = store.insert_operation(&d.op.hash, &d.op, &log_id).await.map_err(|e| e.to_string());
+                let r2 = <SqliteStore as TopicStore<Topic, VerifyingKey, LogId>>::associate(store, &w.topics[t], &w.vks[a], &log_id).await.map_err(|e| e.to_string());
+                if let Err(e) = r1.map(|_| ()).and(r2.map(|_| ())) {
+                    violation("store-error", "populate", e);
+                    return;
+                }
+            }
+        }
+        if let Err(e) = store.commit(permit).await {
+            violation("store-error", "commit", e.to_string());
+            return;
+        }
+    }
     let mut before = match dump(store, &w).await {
         Ok(d) => d,
         Err(e) => {
@@ -351,25 +383,16 @@ async fn run_on(store: &SqliteStore, byzantine: bool) {
             return;
         }
     };
+    ev!("populated: {} rows", before.len());
     let mut step = 0usize;
-    let mut deliveries: Vec<Delivery> = vec![];
-    for (a, t, n) in script {
-        for _ in 0..n {
-            deliveries.push(w.honest(a, t, false, 0));
-        }
-    }
-    let n_populate = deliveries.len();
     let n_events = ctx::range("events", 3, 10);
 
     loop {
-        let d = if step < n_populate {
-            deliveries.remove(0)
-        } else if step < n_populate + n_events {
-            draw_delivery(&mut w, byzantine, &before)
-        } else {
+        if step >= n_events {
             break;
-        };
-        let phase = if step < n_populate { "populate" } else { "event" };
+        }
+        let d = draw_delivery(&mut w, byzantine, &before);
+        let phase = "event";
         let flagged = d.op.header.extensions.prune_flag().is_set();
         let seq = d.op.header.seq_num;
         let height = heights(&before, d.claimed, d.topic);
